@@ -95,6 +95,28 @@ def gen_seqs(rng, max_n, max_len):
     return seqs
 
 
+SPLIT = {"th": ["t", "h"], "ts": ["t", "s"], "au": ["a", "u"], "ai": ["a", "i"]}
+
+
+def add_collision(rng, seqs, max_n):
+    """Two different token lists that concatenate to the same string (['th','a'] / ['t','h','a']), in either order:
+    under plain-token scoring they are different sequences and must stay so."""
+    seqs = [list(s) for s in seqs]
+    k = rng.randrange(len(seqs))
+    coarse = list(seqs[k])
+    if not any(t in SPLIT for t in coarse):
+        coarse.insert(rng.randrange(len(coarse) + 1), rng.choice(sorted(SPLIT)))
+    fine = [x for t in coarse for x in SPLIT.get(t, [t])]
+    pair = [coarse, fine] if rng.random() < 0.5 else [fine, coarse]
+    rest = [s for i, s in enumerate(seqs) if i != k]
+    while len(rest) + 2 > max(max_n, 2):
+        del rest[rng.randrange(len(rest))]
+    pos = rng.randrange(len(rest) + 1)
+    out = rest[:pos] + [pair[0]] + rest[pos:]
+    pos2 = rng.randrange(pos + 1, len(out) + 1)
+    return out[:pos2] + [pair[1]] + out[pos2:]
+
+
 def gen_call(rng):
     kind = rng.choice(["similar", "clusters", "orphans", "all", "all", "swap"])
     c = {"kind": kind}
@@ -136,6 +158,8 @@ def gen_case(rng, max_n=7, max_len=8, max_calls=4, stub=False, min_distinct=2):
         "calls": [gen_call(rng) for _ in range(rng.randint(0, max_calls))],
         "stub": rng.randrange(1 << 30) if stub else None,
     }
+    if rng.random() < (0.15 if classes else 0.5):
+        case["seqs"] = add_collision(rng, case["seqs"], max_n)
     if rng.random() < (0.25 if stub else 0.1):
         # token scoring where almost every column scores below zero: the sum-of-pairs score then grows with the
         # gap weight, which separates the two measurements of _iter from each other
